@@ -100,7 +100,7 @@ def info(tier):
         "point x min/max x tol x 5 methods; linprog statuses 0-4); every OPTIMAL solution's constraints and bounds are "
         "re-evaluated by the reference interpreter; distinct = canonical (problem, method, options | stub script) hashes"
         % len(message_catalogue()),
-        "required_cells": ["A:feasible", "A:infeasible", "A:boundary", "A:lp-feasible", "A:lp-infeasible", "A:deep-constraint", "A:edit-then-resolve", "A:mixed-degree-vector", "A:view-order-constraint", "A:parametric-linear-after-set", "A:symmetric-matrix-reduction", "A:big-single-vector-lp", "A:variable-free-constraint"]
+        "required_cells": ["A:feasible", "A:infeasible", "A:boundary", "A:lp-feasible", "A:lp-infeasible", "A:deep-constraint", "A:edit-then-resolve", "A:mixed-degree-vector", "A:view-order-constraint", "A:parametric-linear-after-set", "A:symmetric-matrix-reduction", "A:big-single-vector-lp", "A:variable-free-constraint", "A:bounds-exactly-zero"]
         + [f"A:method:{m}" for m in sorted(set(NLP_METHODS + LP_METHODS))]
         + [f"B:point:{p}" for p in ("feasible", "violates-le", "violates-ge", "violates-eq", "violates-lb", "violates-ub")]
         + ["B:success:True", "B:success:False", "B:linprog"],
@@ -288,6 +288,30 @@ def variable_free_constraint_problem(rng):
     return {"decls": decls, "objective": obj, "sense": "min", "constraints": cons}
 
 
+def zero_bound_problem(rng):
+    """bounds that are exactly 0 (non-positive / non-negative variables; the fixed-zero off-diagonal entries of diag_matrix) with an
+    objective that pushes the variables across them"""
+    x = ["vec", "x"]
+    kind = rng.choice(["ub=0", "lb=0", "both", "diag_matrix"])
+    if kind == "diag_matrix":
+        decls = [{"k": "vec", "name": "y", "n": 2, "lb": -1.0, "ub": 4.0}]
+        Dm = ["dmat", ["vec", "y"]]
+        tgt = [[1.0, 2.0], [-1.5, 0.5]]
+        obj = None
+        for i in range(2):
+            for j in range(2):
+                t = ["bin", "**", ["bin", "-", ["mel", Dm, i, j], ["raw", tgt[i][j], "float"]], ["raw", 2, "int"]]
+                obj = t if obj is None else ["bin", "+", obj, t]
+        return {"decls": decls, "objective": obj, "sense": "min", "constraints": [["rel", ">=", ["trace", Dm], ["raw", 0.5, "float"], "direct"]]}
+    lb, ub = {"ub=0": (-3.0, 0.0), "lb=0": (0.0, 3.0), "both": (0.0, 0.0)}[kind]
+    decls = [{"k": "vec", "name": "x", "n": 3, "lb": lb, "ub": ub}, {"k": "var", "name": "s", "lb": -2.0, "ub": 2.0}]
+    tgt = [1.0, 0.75, 2.0] if kind != "lb=0" else [-1.0, -0.5, -2.0]
+    d = ["vbin", "-", x, ["arr", tgt]]
+    obj = ["bin", "+", ["dot", d, d], ["bin", "**", ["bin", "-", ["var", "s"], ["raw", 0.5, "float"]], ["raw", 2, "int"]]]
+    cons = [["rel", "<=", ["bin", "+", ["sum", x], ["var", "s"]], ["raw", 4.0, "float"], "direct"]] if rng.random() < 0.6 else []
+    return {"decls": decls, "objective": obj, "sense": "min", "constraints": cons}
+
+
 def mixed_degree_problem(rng):
     """an otherwise linear model with one vector operand whose elements have different degrees (the non-linear one not last)"""
     n = 3
@@ -398,6 +422,11 @@ def workload_a(ctx, rec):
         k += 1
         which = k % 9
         lp = False
+        if which == 6 and n % 3 == 1:
+            prob = zero_bound_problem(rng)
+            for m in ("auto", "SLSQP", "trust-constr", "L-BFGS-B", "COBYLA", "BFGS"):
+                run_real(rec, rng, prob, "A:bounds-exactly-zero", m, {"maxiter": 300} if m == "trust-constr" else {})
+            continue
         if which == 7 and n % 2:
             prob = big_vector_lp(rng)
             for m in ("auto", "linprog", "highs-ds", "highs-ipm"):
